@@ -131,18 +131,25 @@ func (c *verifBbr) gainSym(g float64) string {
 func (c *verifBbr) state() string {
 	b := c.b
 	var sb strings.Builder
-	fmt.Fprintf(&sb, "m=%d rtc=%d lsp=%d cre=%d nle=%d blr=%d mr=%d mrt=%d cw=%d icw=%d mxw=%d mnw=%d pr=%d pg=%s co=%d lcs=%d",
+	// positional (compact: the quick tier compares ~600 000 of these lines); the legend is in
+	// lean/Hy/Drv/Bbr.lean `showState`:
+	//  mode rtc lastSent roundEnd lossEvents bytesLostRound minRtt minRttTs cwnd initCwnd maxCwnd minCwnd pacingRate
+	//  pacingGain cycleOffset lastCycleStart | full roundsWoGain bwAtLastRound exitingQuiescence exitProbeRttAt
+	//  probeRttRoundPassed lastSampleAppLimited hasNonAppLimitedSample recoveryState endRecoveryAt recoveryWindow
+	//  detectOvershooting bytesLostOvershoot cwndForMinPacing maxCwndAdjusted mds bytesInFlight |
+	//  GetCongestionWindow bandwidthForPacer CanSend(0)
+	fmt.Fprintf(&sb, "%d %d %d %d %d %d %d %d %d %d %d %d %d %s %d %d",
 		int(b.mode), uint64(b.roundTripCount), int64(b.lastSentPacket), int64(b.currentRoundTripEnd), b.numLossEventsInRound,
 		int64(b.bytesLostInRound), int64(b.minRtt), int64(b.minRttTimestamp), int64(b.congestionWindow),
 		int64(b.initialCongestionWindow), int64(b.maxCongestionWindow), int64(b.minCongestionWindow), uint64(b.pacingRate),
 		c.gainSym(b.pacingGain), b.cycleCurrentOffset, int64(b.lastCycleStart))
-	fmt.Fprintf(&sb, " full=%s rwg=%d balr=%d xq=%s xpr=%d prp=%s lsal=%s hnal=%s rs=%d era=%d rw=%d dov=%s blo=%d cmp=%d mxa=%d mds=%d bif=%d",
+	fmt.Fprintf(&sb, " | %s %d %d %s %d %s %s %s %d %d %d %s %d %d %d %d %d",
 		b01(b.isAtFullBandwidth), b.roundsWithoutBandwidthGain, uint64(b.bandwidthAtLastRound), b01(b.exitingQuiescence),
 		int64(b.exitProbeRttAt), b01(b.probeRttRoundPassed), b01(b.lastSampleIsAppLimited), b01(b.hasNoAppLimitedSample),
 		int(b.recoveryState), int64(b.endRecoveryAt), int64(b.recoveryWindow), b01(b.detectOvershooting),
 		int64(b.bytesLostWhileDetectingOvershooting), int64(b.cwndToCalculateMinPacingRate),
 		int64(b.maxCongestionWindowWithNetworkParametersAdjusted), int64(b.maxDatagramSize), int64(b.bytesInFlight))
-	fmt.Fprintf(&sb, " | gcw=%d bwp=%d cs0=%s", int64(b.GetCongestionWindow()), int64(b.bandwidthForPacer()), b01(b.CanSend(0)))
+	fmt.Fprintf(&sb, " | %d %d %s", int64(b.GetCongestionWindow()), int64(b.bandwidthForPacer()), b01(b.CanSend(0)))
 	return sb.String()
 }
 
@@ -267,7 +274,7 @@ func (c *verifBbr) Run(op string) vh.Result {
 		}
 		c.mds, c.maxPnSent, c.haveEvent, c.maxSlots, c.maxA0 = mds, -1, false, 0, 0
 		c.oracles(fail)
-		return vh.Result{Out: "ok " + c.state(), ModelOp: fmt.Sprintf("new %s %d bps=%d", f[1], mds, c.bps()), Oracle: orc}
+		return vh.Result{Out: "ok " + c.state(), ModelOp: fmt.Sprintf("new %s %d %d", f[1], mds, c.bps()), Oracle: orc}
 	}
 	if c.b == nil {
 		return vh.Result{Out: "bad-op"}
@@ -297,7 +304,7 @@ func (c *verifBbr) Run(op string) vh.Result {
 			c.maxPnSent = pn
 		}
 		c.oracles(fail)
-		return vh.Result{Out: "ok " + c.state(), ModelOp: fmt.Sprintf("sent %d %d bps=%d", infl, pn, c.bps()), NonTrivial: true, Oracle: orc}
+		return vh.Result{Out: "ok " + c.state(), ModelOp: fmt.Sprintf("sent %d %d %d", infl, pn, c.bps()), NonTrivial: true, Oracle: orc}
 	case "mds":
 		n, e1 := strconv.ParseInt(f[1], 10, 64)
 		if e1 != nil {
@@ -308,11 +315,11 @@ func (c *verifBbr) Run(op string) vh.Result {
 			if n >= c.mds {
 				fail("SetMaxDatagramSize(%d) panicked although the size did not decrease (was %d): %s", n, c.mds, msg)
 			}
-			return vh.Result{Out: "panic", ModelOp: fmt.Sprintf("mds %d bps=0", n), Oracle: orc}
+			return vh.Result{Out: "panic", ModelOp: fmt.Sprintf("mds %d 0", n), Oracle: orc}
 		}
 		c.mds = n
 		c.oracles(fail)
-		return vh.Result{Out: "ok " + c.state(), ModelOp: fmt.Sprintf("mds %d bps=%d", n, c.bps()), NonTrivial: true, Oracle: orc}
+		return vh.Result{Out: "ok " + c.state(), ModelOp: fmt.Sprintf("mds %d %d", n, c.bps()), NonTrivial: true, Oracle: orc}
 	case "ev":
 		if len(f) != 6 {
 			return vh.Result{Out: "bad-op"}
@@ -384,7 +391,9 @@ func (c *verifBbr) Run(op string) vh.Result {
 		if rnd >= 1 {
 			rnd--
 		}
-		mop := fmt.Sprintf("ev %d %d %s %s sv=%s sa=%s si=%d srtt=%s ba=%d bl=%d ta=%d xa=%d mah=%d bw=%d rtt=%d tp=%d t1=%d tc=%d gt=%d lt=%d tr=%d rnd=%d bps=%d",
+		// positional: ev prior now acked lost | sampleValid sampleAppLimited sendStateInflight sampleRtt bytesAcked bytesLost
+		//   totalAcked excessAcked maxAckHeight bw rttMin tgtPacing tgt1 tgtCwnd growthTarget lossThresh targetRate rnd bps
+		mop := fmt.Sprintf("ev %d %d %s %s %s %s %d %s %d %d %d %d %d %d %d %d %d %d %d %d %d %d %d",
 			prior, now, f[4], f[5],
 			b01(sample.lastPacketSendState.isValid), b01(sample.lastPacketSendState.isAppLimited),
 			int64(sample.lastPacketSendState.bytesInFlight), srtt,
@@ -404,7 +413,7 @@ func (c *verifBbr) Run(op string) vh.Result {
 		}
 		c.haveEvent = true
 		c.oracles(fail)
-		return vh.Result{Out: fmt.Sprintf("ok %s lu=%d", c.state(), c.leastUnack), ModelOp: mop, NonTrivial: true, Oracle: orc}
+		return vh.Result{Out: fmt.Sprintf("ok %s %d", c.state(), c.leastUnack), ModelOp: mop, NonTrivial: true, Oracle: orc}
 	}
 	return vh.Result{Out: "bad-op"}
 }
